@@ -217,6 +217,12 @@ pub fn drg_model_xml(m: &serde_json::Value) -> String {
 
 /// Item definitions for a type tree of ItemDef.tla; returns (xml of all definitions, name of the top one).
 pub fn item_definitions_xml(t: &serde_json::Value) -> (String, String) {
+  item_definitions_xml_in_order(t, false)
+}
+
+/// `forward`: the definitions are written top-down, so that every reference points to a definition that comes LATER in
+/// the document (written bottom-up otherwise); the order of item definitions has no meaning.
+pub fn item_definitions_xml_in_order(t: &serde_json::Value, forward: bool) -> (String, String) {
   struct Gen {
     out: Vec<String>,
     n: usize,
@@ -264,5 +270,8 @@ pub fn item_definitions_xml(t: &serde_json::Value) -> (String, String) {
   }
   let mut g = Gen { out: vec![], n: 0 };
   let top = g.define(t);
+  if forward {
+    g.out.reverse();
+  }
   (g.out.join(""), top)
 }
